@@ -216,6 +216,7 @@ def fam_admin(rng, tier):
         ('hotfix/4.3.0', None), ('development/4.3', None), ('development/4.4', 'development/4.3'),
         ('development/4.4', 'development/10.0'), ('development/4.4', 'init'),
         ('development/11.0', 'development/4.3'), ('feature/foo', None), ('release/4.3', None),
+        ('development/4.4', 'outside'), ('development/11.0', 'outside'), ('stabilization/10.0.0', 'outside'),
     ]
     deletes = ['development/4.3', 'development/5.1', 'development/10.0', 'stabilization/5.1.0',
                'development/7.0', 'hotfix/4.2.17', 'bugfix/TEST-1', 'q/4.3']
